@@ -420,6 +420,10 @@ var trailerNames = []string{"x-t", "etag", "x-checksum", "a", "digest", "server-
 var methods = []string{"GET", "POST", "PUT", "HEAD", "CONNECT", "OPTIONS", "PATCH", "DELETE", "get", "G T", ""}
 var clValues = []string{"0", "5", "05", "123456", "", "+5", "-1", "5 ", " 5", "5,5", "9223372036854775807", "9223372036854775808",
 	"18446744073709551616", "1_0", "0x10", "٣", "5\x00"}
+// Content-Length values around the int64 / uint64 boundaries
+var clBoundary = []string{"9223372036854775806", "9223372036854775807", "9223372036854775808", "9223372036854775809",
+	"18446744073709551614", "18446744073709551615", "18446744073709551616", "18446744073709551617",
+	"09223372036854775807", "009223372036854775808", "99999999999999999999", "184467440737095516150", "4294967296", "2147483648"}
 var statusValues = []string{"200", "204", "404", "100", "103", "", "0", "99", "1000", "+200", "-200", "0200", "2 0", "abc",
 	"9223372036854775807", "9223372036854775808", "-9223372036854775808", "-9223372036854775809", "2e2", "200 OK"}
 var teValues = []string{"trailers", "gzip", "", "Trailers", "trailers, deflate", "trailers "}
@@ -470,6 +474,8 @@ func randRegular(r *vh.Rand) field {
 		v = pick(r, clValues)
 		if r.Chance(50) {
 			v = strconv.Itoa(r.Intn(1000))
+		} else if r.Chance(30) {
+			v = pick(r, clBoundary)
 		}
 	case "trailer":
 		v = pick(r, []string{"x-t", "X-T, etag", " a ,b", "", ",", "x t", "Content-Length, x-t", "if-match", "x-t,x-t"})
@@ -524,6 +530,9 @@ func validResponse(r *vh.Rand) []field {
 func validTrailers(r *vh.Rand) []field {
 	var fs []field
 	n := r.Intn(5)
+	if r.Chance(30) {
+		n = 2 + r.Intn(5)
+	}
 	for i := 0; i < n; i++ {
 		fs = append(fs, field{pick(r, trailerNames), randBytes(r, r.Intn(8), false)})
 	}
@@ -597,8 +606,11 @@ func mutate(r *vh.Rand, fs []field, kind string) []field {
 		return insertAt(fs, pos, field{pick(r, forbidden), randValue(r)})
 	case 6: // te variants
 		return insertAt(fs, pos, field{"te", pick(r, teValues)})
-	case 7: // content-length variants (twice: equal or contradicting)
+	case 7: // content-length variants (twice: equal or contradicting), often at the int64 / uint64 boundary
 		v := pick(r, clValues)
+		if r.Chance(45) {
+			v = pick(r, clBoundary)
+		}
 		fs = insertAt(fs, pos, field{"content-length", v})
 		if r.Bool() {
 			w := v
@@ -682,6 +694,23 @@ func sectionSize(fs []field) int {
 
 func pickLimit(r *vh.Rand, fs []field) int {
 	sz := sectionSize(fs)
+	if len(fs) >= 2 && r.Chance(10) {
+		// every single field fits, the section as a whole does not (or just does): the budget is cumulative
+		mx := 0
+		for _, f := range fs {
+			mx = max(mx, len(f.Name)+len(f.Value)+32)
+		}
+		switch r.Intn(4) {
+		case 0:
+			return mx
+		case 1:
+			return sz - 1
+		case 2:
+			return sz
+		default:
+			return mx + r.Intn(sz-mx+1)
+		}
+	}
 	switch r.Pick(74, 18, 5, 3) {
 	case 0:
 		return sz + 1000 + r.Intn(100000)
